@@ -6,6 +6,7 @@
      npdu_types / register_npdu_type (npdu.py:18-21)    -> the dispatch of dec_msg (KeyError otherwise)
    Addresses are the three shapes of pdu.py:530-600 reduced to (net, MAC octets).
    No proofs here (see NpciFacts.v, NpciMsgFacts.v). *)
+From Coq Require Import String.
 From Bac Require Import Base.
 Open Scope N_scope.
 
@@ -209,6 +210,32 @@ Definition msg_type (m : msg) : N :=
 
 Definition registered_types : list N := [0; 1; 2; 3; 4; 5; 6; 7; 8; 9; 0x12; 0x13].
 
+(* the class each constructor stands for (type(obj).__name__), its number of parameter fields, and
+   one witness per constructor: the model's side of the registry table (NpciRegistry.v compares it
+   with the table translated from npdu.npdu_types) *)
+Definition msg_class_name (m : msg) : String.string :=
+  match m with
+  | WhoIsRouter _ => "WhoIsRouterToNetwork" | IAmRouter _ => "IAmRouterToNetwork"
+  | ICouldBeRouter _ _ => "ICouldBeRouterToNetwork" | RejectMessage _ _ => "RejectMessageToNetwork"
+  | RouterBusy _ => "RouterBusyToNetwork" | RouterAvailable _ => "RouterAvailableToNetwork"
+  | InitRT _ => "InitializeRoutingTable" | InitRTAck _ => "InitializeRoutingTableAck"
+  | EstablishConn _ _ => "EstablishConnectionToNetwork" | DisconnectConn _ => "DisconnectConnectionToNetwork"
+  | WhatIsNetNum => "WhatIsNetworkNumber" | NetNumIs _ _ => "NetworkNumberIs"
+  end%string.
+Definition msg_arity (m : msg) : nat :=
+  match m with
+  | WhoIsRouter _ | IAmRouter _ | RouterBusy _ | RouterAvailable _ | InitRT _ | InitRTAck _
+  | DisconnectConn _ => 1
+  | ICouldBeRouter _ _ | RejectMessage _ _ | EstablishConn _ _ | NetNumIs _ _ => 2
+  | WhatIsNetNum => 0
+  end%nat.
+Definition msg_witnesses : list msg :=
+  [WhoIsRouter None; IAmRouter []; ICouldBeRouter 0 0; RejectMessage 0 0; RouterBusy [];
+   RouterAvailable []; InitRT []; InitRTAck []; EstablishConn 0 0; DisconnectConn 0;
+   WhatIsNetNum; NetNumIs 0 0].
+Definition model_registry : list (N * String.string) :=
+  map (fun m => (msg_type m, msg_class_name m)) msg_witnesses.
+
 Definition put_nets (l : list N) : list N := flat_map put_short l.
 
 (* the for-loop of InitializeRoutingTable(.Ack).encode, npdu.py:583-587 *)
@@ -319,6 +346,24 @@ Definition wf_msg (m : msg) : bool :=
   | WhatIsNetNum => true
   end.
 
+(* ---- a process decodes many messages one after the other: in the model that is a map of the
+   decoders over the inputs — there is no state for an earlier decode to leave behind *)
+Inductive op : Type :=
+| OpDecMsg (t : N) (body : list N)       (* npdu_types[t]().decode(NPDU(body)) *)
+| OpDecNpdu (bs : list N)                (* NPDU().decode(PDU(bs)) *)
+| OpEncMsg (m : msg).                    (* message.encode(NPDU()) *)
+Inductive op_result : Type :=
+| RDecMsg (r : res (msg * list N))
+| RDecNpdu (r : res (N * npci * list N))
+| REncMsg (r : res (list N)).
+Definition run_op (o : op) : op_result :=
+  match o with
+  | OpDecMsg t b => RDecMsg (dec_msg t b)
+  | OpDecNpdu bs => RDecNpdu (dec_npdu bs)
+  | OpEncMsg m => REncMsg (enc_msg m)
+  end.
+Definition run_history (h : list op) : list op_result := map run_op h.
+
 (* ---- canonical outputs for the correspondence check *)
 Definition canon_res {A} (f : A -> list Z) (r : res A) : list Z :=
   match r with Ok a => 0%Z :: f a | Err e => [1%Z; err_code e] end.
@@ -353,3 +398,12 @@ Definition canon_msg (m : msg) : list Z :=
 Definition canon_decmsg (x : msg * list N) : list Z := canon_msg (fst x) ++ canon_rest (snd x).
 Definition canon_frame (x : N * npci * msg * list N) : list Z :=
   let '(c, h, m, r) := x in zN c :: canon_npci h ++ canon_msg m ++ canon_rest r.
+Definition canon_op_result (r : op_result) : list Z :=
+  match r with
+  | RDecMsg x => canon_res canon_decmsg x
+  | RDecNpdu x => canon_res canon_dec x
+  | REncMsg x => canon_res zs x
+  end.
+(* each result is prefixed by its length so that the concatenation is unambiguous *)
+Definition canon_history (rs : list op_result) : list Z :=
+  zlen rs :: flat_map (fun r => let c := canon_op_result r in zlen c :: c) rs.
